@@ -130,6 +130,35 @@ func sxSubst(n *sx, m map[string]*sx) *sx {
 	return out
 }
 
+// sxSimp applies the slice accessor rules sptr/slen/scap (mkslice p l c) = p/l/c bottom-up.
+func sxSimp(n *sx) *sx {
+	if n.isAtom() {
+		return n
+	}
+	out := &sx{kids: make([]*sx, len(n.kids))}
+	changed := false
+	for i, k := range n.kids {
+		out.kids[i] = sxSimp(k)
+		if out.kids[i] != k {
+			changed = true
+		}
+	}
+	if !changed {
+		out = n
+	}
+	if len(out.kids) == 2 && out.kids[0].isAtom() && !out.kids[1].isAtom() && out.kids[1].head() == "mkslice" && len(out.kids[1].kids) == 4 {
+		switch out.kids[0].atom {
+		case "sptr":
+			return out.kids[1].kids[1]
+		case "slen":
+			return out.kids[1].kids[2]
+		case "scap":
+			return out.kids[1].kids[3]
+		}
+	}
+	return out
+}
+
 // stripBang removes a (! body :pattern ...) annotation and returns the single-term patterns.
 func stripBang(n *sx) (*sx, []*sx) {
 	if n.isAtom() || n.head() != "!" || len(n.kids) < 2 {
@@ -171,9 +200,65 @@ func asQuant(n *sx) *qAssump {
 	}
 	q.body, q.pats = stripBang(n.kids[2])
 	if len(q.pats) == 0 {
+		q.pats = inferPatterns(q.body, q.vars)
+	}
+	if len(q.pats) == 0 {
 		return nil
 	}
 	return q
+}
+
+// inferPatterns picks, for a quantifier without annotation, the minimal "select" subterms of the
+// body that mention every bound variable (at most four alternatives).
+func inferPatterns(body *sx, vars []string) []*sx {
+	vs := map[string]bool{}
+	for _, v := range vars {
+		vs[v] = true
+	}
+	var out []*sx
+	seen := map[string]bool{}
+	// returns the set of bound variables in n, and whether a candidate was found below n
+	var walk func(n *sx, shadow map[string]bool) (map[string]bool, bool)
+	walk = func(n *sx, shadow map[string]bool) (map[string]bool, bool) {
+		if n.isAtom() {
+			if vs[n.atom] && !shadow[n.atom] {
+				return map[string]bool{n.atom: true}, false
+			}
+			return nil, false
+		}
+		h := n.head()
+		if h == "forall" || h == "exists" || h == "let" {
+			return nil, true // do not look into nested binders
+		}
+		got := map[string]bool{}
+		found := false
+		for i, k := range n.kids {
+			if i == 0 && k.isAtom() {
+				continue
+			}
+			g, f := walk(k, shadow)
+			for v := range g {
+				got[v] = true
+			}
+			if f {
+				found = true
+			}
+		}
+		if !found && (h == "select" || h == "elemptr") && len(got) == len(vs) {
+			str := n.String()
+			bad := strings.Contains(str, "(ite ") || strings.Contains(str, "(and ") || strings.Contains(str, "(not ") || strings.Contains(str, "(or ")
+			if !bad && !seen[str] && len(out) < 4 {
+				seen[str] = true
+				out = append(out, n)
+			}
+			if !bad {
+				return got, true
+			}
+		}
+		return got, found
+	}
+	walk(body, map[string]bool{})
+	return out
 }
 
 func sxMatch(p, t *sx, vars map[string]bool, m map[string]*sx) bool {
@@ -270,57 +355,250 @@ func preInstantiate(script string) (string, bool) {
 		return "", false
 	}
 	var extraDecl, extraAss []string
-	// skolemize the goal
+	// decompose the negated goal by polarity: universals of the goal and existentials of
+	// assumptions are skolemized, conjunctions are split; what remains is asserted as it is
 	g := parseSx(lines[goalLine])
 	if g == nil || len(g.kids) != 2 || len(g.kids[1].kids) != 2 {
 		return "", false
 	}
-	goal := g.kids[1].kids[1]
 	nsk := 0
 	changedGoal := false
-	for {
-		goal, _ = stripBang(goal)
-		if goal.isAtom() {
-			break
+	skolem := func(binders *sx, body *sx) *sx {
+		m := map[string]*sx{}
+		for _, b := range binders.kids {
+			nsk++
+			name := fmt.Sprintf("sk!%d", nsk)
+			extraDecl = append(extraDecl, fmt.Sprintf("(declare-const %s %s)", name, b.kids[1].String()))
+			m[b.kids[0].atom] = &sx{atom: name}
 		}
-		if goal.head() == "forall" && len(goal.kids) == 3 {
-			m := map[string]*sx{}
-			for _, b := range goal.kids[1].kids {
-				nsk++
-				name := fmt.Sprintf("sk!%d", nsk)
-				extraDecl = append(extraDecl, fmt.Sprintf("(declare-const %s %s)", name, b.kids[1].String()))
-				m[b.kids[0].atom] = &sx{atom: name}
-			}
-			goal = sxSubst(goal.kids[2], m)
-			changedGoal = true
-			continue
-		}
-		if goal.head() == "=>" && len(goal.kids) == 3 {
-			extraAss = append(extraAss, goal.kids[1].String())
-			goal = goal.kids[2]
-			changedGoal = true
-			continue
-		}
-		break
+		changedGoal = true
+		return sxSubst(body, m)
 	}
-	// ground terms
+	// skolemizeAll replaces, in an assumption, the existentials in positive position (and the
+	// universals in negative position) that are not below a binder that stays by fresh constants
+	var skolemizeAll func(n *sx, pos bool, depth int) *sx
+	skolemizeAll = func(n *sx, pos bool, depth int) *sx {
+		if n.isAtom() || depth > 40 {
+			return n
+		}
+		h := n.head()
+		switch h {
+		case "and", "or":
+			out := &sx{kids: make([]*sx, len(n.kids))}
+			out.kids[0] = n.kids[0]
+			for i := 1; i < len(n.kids); i++ {
+				out.kids[i] = skolemizeAll(n.kids[i], pos, depth+1)
+			}
+			return out
+		case "not":
+			if len(n.kids) == 2 {
+				return &sx{kids: []*sx{n.kids[0], skolemizeAll(n.kids[1], !pos, depth+1)}}
+			}
+		case "=>":
+			if len(n.kids) == 3 {
+				return &sx{kids: []*sx{n.kids[0], skolemizeAll(n.kids[1], !pos, depth+1), skolemizeAll(n.kids[2], pos, depth+1)}}
+			}
+		case "!":
+			if len(n.kids) >= 2 {
+				b, _ := stripBang(n)
+				return skolemizeAll(b, pos, depth+1)
+			}
+		case "exists":
+			if pos && len(n.kids) == 3 {
+				return skolemizeAll(skolem(n.kids[1], n.kids[2]), pos, depth+1)
+			}
+		case "forall":
+			if !pos && len(n.kids) == 3 {
+				return skolemizeAll(skolem(n.kids[1], n.kids[2]), pos, depth+1)
+			}
+		}
+		return n
+	}
+	var pieces []*sx // assumptions obtained from the negated goal
+	var assertPos, assertNeg func(n *sx, depth int)
+	assertPos = func(n *sx, depth int) {
+		n, _ = stripBang(n)
+		if !n.isAtom() && depth < 12 {
+			switch n.head() {
+			case "and":
+				for _, k := range n.kids[1:] {
+					assertPos(k, depth+1)
+				}
+				return
+			case "exists":
+				if len(n.kids) == 3 {
+					assertPos(skolem(n.kids[1], n.kids[2]), depth+1)
+					return
+				}
+			case "not":
+				if len(n.kids) == 2 {
+					assertNeg(n.kids[1], depth+1)
+					return
+				}
+			}
+		}
+		pieces = append(pieces, n)
+	}
+	assertNeg = func(n *sx, depth int) {
+		n, _ = stripBang(n)
+		if !n.isAtom() && depth < 12 {
+			switch n.head() {
+			case "forall":
+				if len(n.kids) == 3 {
+					assertNeg(skolem(n.kids[1], n.kids[2]), depth+1)
+					return
+				}
+			case "=>":
+				if len(n.kids) == 3 {
+					assertPos(n.kids[1], depth+1)
+					assertNeg(n.kids[2], depth+1)
+					return
+				}
+			case "or":
+				for _, k := range n.kids[1:] {
+					assertNeg(k, depth+1)
+				}
+				return
+			case "not":
+				if len(n.kids) == 2 {
+					assertPos(n.kids[1], depth+1)
+					return
+				}
+			case "exists":
+				if len(n.kids) == 3 {
+					body, _ := stripBang(n.kids[2])
+					pieces = append(pieces, &sx{kids: []*sx{{atom: "forall"}, n.kids[1], {kids: []*sx{{atom: "not"}, body}}}})
+					changedGoal = true
+					return
+				}
+			}
+		}
+		pieces = append(pieces, &sx{kids: []*sx{{atom: "not"}, n}})
+	}
+	assertNeg(g.kids[1].kids[1], 0)
+	for _, pc := range pieces {
+		extraAss = append(extraAss, pc.String())
+	}
+	// ground terms; intermediate values are named by assumptions (= name!k expr): the terms are
+	// also indexed with those names expanded, so that a pattern can match through a name
 	idx := map[string][]*sx{}
 	seen := map[string]bool{}
 	var quants []*qAssump
+	defs := map[string]*sx{}
+	var parsed []*sx
 	for _, li := range assertIdx[:len(assertIdx)-1] {
 		a := parseSx(lines[li])
 		if a == nil || len(a.kids) != 2 {
 			continue
 		}
-		if q := asQuant(a.kids[1]); q != nil {
+		b := a.kids[1]
+		if q := asQuant(b); q != nil {
 			quants = append(quants, q)
 		}
-		collectGround(a.kids[1], map[string]bool{}, idx, seen)
+		if !b.isAtom() && b.head() == "=" && len(b.kids) == 3 && b.kids[1].isAtom() && strings.Contains(b.kids[1].atom, "!") && !b.kids[2].isAtom() {
+			if _, dup := defs[b.kids[1].atom]; !dup && len(lines[li]) < 4000 {
+				defs[b.kids[1].atom] = b.kids[2]
+			}
+		}
+		parsed = append(parsed, b)
 	}
-	for _, e := range extraAss {
-		collectGround(parseSx(e), map[string]bool{}, idx, seen)
+	// a name defined by (ite c A (ite d B C)) stands for one of A, B, C: variant j of the
+	// expansion replaces every such name by its j-th alternative
+	maxAlts := 1
+	alts := map[string][]*sx{}
+	for name, d := range defs {
+		if d.head() != "ite" {
+			continue
+		}
+		var leaves []*sx
+		var walk func(n *sx)
+		walk = func(n *sx) {
+			if !n.isAtom() && n.head() == "ite" && len(n.kids) == 4 {
+				walk(n.kids[2])
+				walk(n.kids[3])
+				return
+			}
+			if n.isAtom() && (n.atom == "nilslice" || n.atom == "nilptr") {
+				return
+			}
+			leaves = append(leaves, n)
+		}
+		walk(d)
+		if len(leaves) > 0 && len(leaves) <= 4 {
+			alts[name] = leaves
+			if len(leaves) > maxAlts {
+				maxAlts = len(leaves)
+			}
+		}
 	}
-	collectGround(goal, map[string]bool{}, idx, seen)
+	expand := func(n *sx, j int) *sx {
+		m := defs
+		if len(alts) > 0 {
+			m = map[string]*sx{}
+			for k, v := range defs {
+				m[k] = v
+			}
+			for k, ls := range alts {
+				if j < len(ls) {
+					m[k] = ls[j]
+				} else {
+					m[k] = ls[len(ls)-1]
+				}
+			}
+		}
+		for d := 0; d < 4; d++ {
+			r := sxSubst(n, m)
+			if r == n {
+				break
+			}
+			n = r
+		}
+		return sxSimp(n)
+	}
+	// patterns are matched in their written form and with their names expanded
+	for _, q := range quants {
+		np := len(q.pats)
+		for pi := 0; pi < np; pi++ {
+			for j := 0; j < maxAlts; j++ {
+				if e := expand(q.pats[pi], j); e.String() != q.pats[pi].String() && len(q.pats) < 12 {
+					q.pats = append(q.pats, e)
+				}
+			}
+		}
+	}
+	addGround := func(n *sx) {
+		collectGround(n, map[string]bool{}, idx, seen)
+		if len(defs) > 0 {
+			for j := 0; j < maxAlts; j++ {
+				if e := expand(n, j); e != n {
+					collectGround(e, map[string]bool{}, idx, seen)
+				}
+			}
+		}
+	}
+	for _, b := range parsed {
+		if asQuant(b) != nil {
+			collectGround(b, map[string]bool{}, idx, seen)
+			continue
+		}
+		addGround(b)
+	}
+	for _, pc := range pieces {
+		if q := asQuant(pc); q != nil {
+			np := len(q.pats)
+			for pi := 0; pi < np; pi++ {
+				for j := 0; j < maxAlts; j++ {
+					if e := expand(q.pats[pi], j); e.String() != q.pats[pi].String() && len(q.pats) < 12 {
+						q.pats = append(q.pats, e)
+					}
+				}
+			}
+			quants = append(quants, q)
+			collectGround(pc, map[string]bool{}, idx, seen)
+			continue
+		}
+		addGround(pc)
+	}
 	if len(quants) == 0 {
 		if !changedGoal {
 			return "", false
@@ -354,7 +632,7 @@ func preInstantiate(script string) (string, bool) {
 						continue
 					}
 					done[key.String()] = true
-					inst := sxSubst(q.body, m)
+					inst := skolemizeAll(sxSubst(q.body, m), true, 0)
 					s := inst.String()
 					if q.guard != nil {
 						s = "(=> " + q.guard.String() + " " + s + ")"
@@ -377,7 +655,7 @@ func preInstantiate(script string) (string, bool) {
 			break
 		}
 		for _, t := range newTerms {
-			collectGround(t, map[string]bool{}, idx, seen)
+			addGround(t)
 		}
 	}
 	if len(insts) == 0 && !changedGoal {
@@ -396,7 +674,6 @@ func preInstantiate(script string) (string, bool) {
 			for _, a := range insts {
 				sb.WriteString("(assert " + a + ")\n")
 			}
-			sb.WriteString("(assert (not " + goal.String() + "))\n")
 			continue
 		}
 		sb.WriteString(l)
